@@ -131,7 +131,7 @@ PROPS = {
         ],
         "units": [
             regress("C09"),
-            {"run": "^TestC09$", "quick": 8000, "thorough": 60000},
+            {"run": "^TestC09$", "quick": 6000, "thorough": 60000},
         ],
     },
     "C16": {
